@@ -32,7 +32,9 @@ LEVEL_TEXT = (
     "the default table, instantiated with representative options: to_url has the form that to_python inverts (text "
     "converters: quoted value / identity; int and float: str(num(value)) / num(text) with the same num; uuid: str / "
     "uuid.UUID; any: the member itself / identity; a converter whose values may contain URL-reserved characters quotes "
-    "them), fixed_digits pads to_url with zfill(n) and makes to_python refuse every other length, and the instance regex "
+    "them; a text value reaches quote, and captured text leaves to_python, without a known non-identity library operation "
+    "(case folding, trimming, padding, Unicode normalisation, (un)quoting, non-UTF-8 encoding) - an unknown operation is "
+    "reported as not understood), fixed_digits pads to_url with zfill(n) and makes to_python refuse every other length, and the instance regex "
     "(incl. length options, signed, any-items with regex metacharacters) accepts the canonical text of sample values; "
     "(R4.3) for sample rules over the whole converter set MapAdapter.build returns, piece by piece in rule order, the "
     "percent-encoded literal text and each variable's own converter.to_url(value), a default for a variable of the rule "
@@ -48,7 +50,7 @@ LEVEL_TEXT = (
     "force_external), the host is the rule's domain part + server name (subdomain rules, Subdomain / Submount factories, "
     "host matching), and among rules of one endpoint a canonical rule is built before an alias, a rule that renders every given value in its "
     "path before a shorter one (also when a value equals the shorter rule's default), and otherwise the rule whose defaults "
-    "equal the given values. NOT "
+    "equal the given values - also in the host-matching fallback, when the adapter is bound to another host than the rules. NOT "
     "decided: that each compiled part regex / the state machine accepts exactly the text to_url produces for every value "
     "(regex language inclusion over formatted numbers, Unicode, percent-decoding by the server), rule selection among "
     "overlapping rules, path converters on the match side, the URL scheme, whether a query is "
@@ -89,6 +91,60 @@ def _unstr(t_: t.Any) -> t.Any:
     return t_
 
 
+# library operations on text that are known NOT to be the identity on the domain of text values (they fold, trim, pad or
+# re-encode): a converter that applies one of them on the way to / from the URL while the other direction does not
+# undo it returns a different value than the one the URL was built from - understood, and wrong.  Anything that is not
+# listed stays opaque ("not understood").
+_NONIDENTITY_METHODS = {
+    "lower", "upper", "casefold", "title", "capitalize", "swapcase", "strip", "lstrip", "rstrip", "replace", "translate", "expandtabs",
+    "removeprefix", "removesuffix", "zfill", "center", "ljust", "rjust",
+}
+_NONIDENTITY_FUNCS = {
+    "unicodedata.normalize", "urllib.parse.unquote", "urllib.parse.unquote_plus", "urllib.parse.quote", "urllib.parse.quote_plus", "html.escape", "html.unescape",
+    "builtins.repr", "builtins.ascii", "re.sub", "re.escape", "string.capwords", "textwrap.shorten", "textwrap.dedent",
+}
+_IDENTITY_ENCODINGS = ("utf-8", "utf8", "utf_8")
+
+
+def value_transform(term: t.Any, base: t.Callable[[t.Any], bool]) -> list[str] | None:
+    """[] when term is the value itself (possibly through str() / UTF-8 encode), the list of known non-identity
+    operations applied to it otherwise; None when the term is not understood as a function of the value."""
+    if base(term):
+        return []
+    if not isinstance(term, Sym):
+        return None
+    if term.op == "call":
+        fq, args, kwargs = term.args[0], term.args[1], dict(term.args[2])
+        if fq == "builtins.str" and len(args) == 1 and not kwargs:
+            return value_transform(args[0], base)
+        name = fq
+        if ".str." in fq and fq.rsplit(".", 1)[-1] in _NONIDENTITY_METHODS:
+            name = "str." + fq.rsplit(".", 1)[-1]
+        elif fq not in _NONIDENTITY_FUNCS:
+            return None
+        syms = [a for a in list(args) + list(kwargs.values()) if not H.deep_concrete(a)]
+        if len(syms) != 1:
+            return None
+        inner = value_transform(syms[0], base)
+        return None if inner is None else inner + [name]
+    if term.op == "method":
+        recv, name, args, kwargs = term.args[0], term.args[1], term.args[2], dict(term.args[3])
+        if not H.deep_concrete(args) or not H.deep_concrete(kwargs):
+            return None
+        inner = value_transform(recv, base)
+        if inner is None:
+            return None
+        if name == "encode":
+            enc = kwargs.get("encoding", args[0] if args else "utf-8")
+            if isinstance(enc, str) and enc.lower().replace("-", "_") in ("utf_8", "utf8"):
+                return inner
+            return inner + [f"encode({enc!r})"]
+        if name in _NONIDENTITY_METHODS:
+            return inner + [f".{name}()"]
+        return None
+    return None
+
+
 def classify_text(term: t.Any, base: t.Callable[[t.Any], bool]) -> dict[str, t.Any] | None:
     """shape of a to_url result relative to the value (``base`` recognises the value symbol)."""
     if isinstance(term, str):
@@ -104,10 +160,10 @@ def classify_text(term: t.Any, base: t.Callable[[t.Any], bool]) -> dict[str, t.A
         a = term.args[1]
         if not a:
             return None
-        inner = _unstr(a[0])
-        if base(inner):
-            return {"kind": "quote", "fq": term.args[0], "term": term}
-        return None
+        tr = value_transform(a[0], base)
+        if tr is None:
+            return None
+        return {"kind": "quote", "fq": term.args[0], "term": term, "transform": tr}
     if base(term):
         return {"kind": "raw"}
     if term.op == "call" and term.args[0] == "builtins.str" and len(term.args[1]) == 1 and not term.args[2]:
@@ -122,8 +178,11 @@ def classify_text(term: t.Any, base: t.Callable[[t.Any], bool]) -> dict[str, t.A
 def classify_python(term: t.Any, base: t.Callable[[t.Any], bool]) -> dict[str, t.Any] | None:
     if base(term):
         return {"kind": "identity"}
-    if isinstance(term, Sym) and term.op == "call" and len(term.args[1]) == 1 and not term.args[2] and base(term.args[1][0]):
+    if isinstance(term, Sym) and term.op == "call" and len(term.args[1]) == 1 and not term.args[2] and base(term.args[1][0]) and term.args[0] not in _NONIDENTITY_FUNCS:
         return {"kind": "conv", "fn": term.args[0]}
+    tr = value_transform(term, base)
+    if tr:
+        return {"kind": "transform", "transform": tr}
     return None
 
 
@@ -468,18 +527,18 @@ def rule_converters(ctx: Ctx, repo, present: set[str], harvest) -> dict[str, str
                 if any(c is None for c in cu):
                     bad = [show(u) for u, c in zip(urls, cu) if c is None]
                     raise AnalysisError(f"{cfg}.to_url returns a form that is not understood: {bad[0]}")
-                forms = {(c["kind"], c.get("fn"), c.get("pad")) for c in cu}
+                forms = {(c["kind"], c.get("fn"), c.get("pad"), tuple(c.get("transform") or ())) for c in cu}
                 if len(forms) != 1:
                     raise AnalysisError(f"{cfg}.to_url has several forms for one configuration: {sorted(map(str, forms))}")
                 c0 = cu[0]
                 expect_kind = EXPECTED_KIND[name]
                 pad_want = kwargs.get("fixed_digits") or None
                 if expect_kind == "text":
-                    ok = c0["kind"] == "quote"
-                    want = "quote(value, safe=...)"
+                    ok = c0["kind"] == "quote" and not c0.get("transform")
+                    want = "quote(value, safe=...) of the value itself" + (f" - but the value first goes through {c0['transform']}, which to_python does not undo" if c0.get("transform") else "")
                 elif expect_kind == "member":
-                    ok = c0["kind"] in ("raw", "quote", "str")
-                    want = "the member itself (quoted where needed)"
+                    ok = c0["kind"] in ("raw", "quote", "str") and not c0.get("transform")
+                    want = "the member itself (quoted where needed)" + (f" - but the value first goes through {c0['transform']}" if c0.get("transform") else "")
                 elif expect_kind in ("int", "float"):
                     ok = (c0["kind"] == "num" and c0["fn"] == _NUM_FN[expect_kind] or c0["kind"] == "str") and c0.get("pad") == pad_want
                     want = f"str({expect_kind}(value))" + (f".zfill({pad_want})" if pad_want else " without padding")
@@ -883,7 +942,18 @@ def rule_assembly(ctx: Ctx, repo, present: set[str], harvest) -> None:
         return ["/d/"] if eq and eq[0][1] else None
 
     run_case("defaults, symbolic value", D, {"script_name": "/"}, "d", {"page": int}, {}, ["/d/", DYN("page", "int")], w_=where_sel, conds=by_cond)
-    ctx.floor("R4.7", "assembly scenarios", n, 21)
+    # the same selection when host matching is on and the adapter is bound to another host than the rules (fallback branch)
+    def on_host(rules: list[tuple], host: str) -> list[tuple]:
+        return [(k, r, {**kw, "host": host}) for k, r, kw in rules]
+
+    other = {"server_name": "here.example", "script_name": "/"}
+    hm = {"host_matching": True}
+    run_case("other host: value equals the default", on_host(D, "there.example"), other, "d", {"page": 1}, {}, ["http://there.example/d/"], hm, w_=where_sel)
+    run_case("other host: other value", on_host(D, "there.example"), other, "d", {"page": 2}, {}, ["http://there.example/d/2"], hm, w_=where_sel)
+    run_case("other host: alias rule is not the one that is built", on_host(AL, "there.example"), other, "al", {"x": str}, {}, ["http://there.example/canon/", DYN("x")], hm, w_=where_sel)
+    run_case("other host: rule that takes all the values is built", on_host(SP, "there.example"), other, "sp", {"x": str, "y": int}, {"append_unknown": False}, ["http://there.example/sp/", DYN("x"), "/", DYN("y", "int")], hm, w_=where_sel)
+    run_case("other host: all values given, one equals a shorter rule's default", on_host(LG, "there.example"), other, "arch", {"year": 2024, "month": 5}, {}, ["http://there.example/archive/2024/05"], hm, w_=where_sel)
+    ctx.floor("R4.7", "assembly scenarios", n, 26)
 
 
 # -- R4.1 -----------------------------------------------------------------------------------------------------------
